@@ -37,9 +37,9 @@ def fresh_id(ctx):
         # the id parameter of the callee by name
         cal = lib.local_callee(F, c)
         idx = None
-        for v in cal.vars:
-            if v['name'] == 'id' and v['arg'] is not None:
-                idx = v['pl']['l'] - 1
+        us = lib.params_by_type(cal, r'^usize$')
+        if len(us) == 1:
+            idx = us[0] - 1
         if idx is None:
             ctx.bad(body.key, 'id-argument', 'cannot find the `id` parameter of Dimension::add_attribute', c.where())
             continue
@@ -85,7 +85,7 @@ def fresh_id(ctx):
             if rv['k'] == 'agg' and rv.get('adt') == ATTR:
                 op = rv['ops'][rv['fields'].index('id')]
                 roots = copy_chain_sources(nb, op)
-                ctx.check(all(r[0] == 'param' and nb.var_name(r[1]) == 'id' for r in roots) and bool(roots), nb.key, 'Attribute.id <- id argument',
+                ctx.check(all(r[0] == 'param' and nb.local_ty(r[1]) == 'usize' for r in roots) and bool(roots), nb.key, 'Attribute.id <- id argument',
                           'Attribute::new does not store the identifier it is given', 'id <- id', nb.where(st['ln']))
 
 
@@ -117,9 +117,9 @@ def rename_keeps_id(ctx):
         roots = copy_chain_sources(rb, ins[0].args[2], through_calls=IDENTITY_CALLS)
         ok = bool(roots) and all(r[0] == 'call' and r[1] is rem[0] and r[2][-2:] == ('@Some', '0') for r in roots)
         # key of remove = old name, key of insert = new name
-        names = {v['name']: v['pl']['l'] for v in rb.vars if v['arg'] is not None}
-        ok = ok and any(r[0] == 'param' and r[1] == names.get('old_name') for r in root_descr(rb, rem[0].args[1]))
-        ok = ok and any(r[0] == 'param' and r[1] == names.get('new_name') for r in root_descr(rb, ins[0].args[1]))
+        # rename_attribute(&mut self, old_name: &Name, new_name: Name): parameters 2 and 3
+        ok = ok and any(r[0] == 'param' and r[1] == 2 for r in root_descr(rb, rem[0].args[1]))
+        ok = ok and any(r[0] == 'param' and r[1] == 3 for r in root_descr(rb, ins[0].args[1]))
     ctx.check(ok, rb.key, 'anarchy: insert(new, remove(old))', 'renaming in an unordered dimension does not store, under the new name, '
               'exactly the attribute removed from the old name (its identifier — hence its access — may change)',
               'inserted value = removed value', rb.where())
@@ -214,8 +214,8 @@ def update_reconciles(ctx):
                 rs = [r for r in root_descr(body, om.args[0])]
                 ok = any((r[0] == 'param' and r[2][-1:] == ('access_structure',)) or r[0] == 'call' for r in rs)
                 if api.endswith('update_msk'):
-                    names = {v['name']: v['pl']['l'] for v in body.vars if v['arg'] is not None}
-                    ok = any(r[0] == 'param' and r[1] == names.get('msk') and r[2][-1:] == ('access_structure',) for r in rs)
+                    mp = lib.param_by_type(body, r'core::MasterSecretKey$')
+                    ok = any(r[0] == 'param' and r[1] == mp and r[2][-1:] == ('access_structure',) for r in rs)
             ctx.check(ok, api, 'universe <- access_structure.omega()', '%s does not hand update_msk the universe of rights of the key\'s own '
                       'access structure' % api, 'rights <- msk.access_structure.omega()?', c.where())
 
